@@ -19,7 +19,7 @@ LEVEL = "model_checking"
 ENGINES = ["E1 nir2smt", "E3 BMC + one step from any state"]
 TECHNIQUE = "BMC from reset against a z3 free-mask model + one symbolic step from every mask value (all values reachable through replace); counterexamples replayed on amaranth.sim"
 BOUNDS = {
-    "quick": "entries 1..6, (alloc_ways, free_ways) in {(1,1),(2,2),(3,1),(1,3)}, init in {all free, alternating pattern}; BMC 5 cycles from reset "
+    "quick": "entries 1..6, (alloc_ways, free_ways) in {(1,1),(2,2),(3,1),(1,3)}, init in {all free, alternating pattern, a negative two's-complement mask}; BMC 5 cycles from reset "
              "(entries <= 4: 6; one init pattern per ways shape above 2 entries); one step + register update from every mask value; all subsets of simultaneous calls, all arguments",
     "thorough": "one step + register update from every mask value: entries 1..10, ways up to 4 (alloc) x 4 (free) (entries > 6: six ways shapes), three init patterns; "
                 "BMC from reset: entries 1..8, six ways shapes up to (3,2) (entries > 6: (1,1),(2,2)), 7 / 6 / 5 cycles for entries <= 3 / 4 / above",
@@ -34,7 +34,8 @@ W = 8
 
 def _pattern(kind, n):
     full = (1 << n) - 1
-    return {"all": -1, "alt": 0b1010101010101 & full, "low": (full >> 1) if n > 1 else 0}[kind]
+    # "neg": a negative (two's complement) mask other than -1 that reserves identifiers 0 and 2
+    return {"all": -1, "alt": 0b1010101010101 & full, "low": (full >> 1) if n > 1 else 0, "neg": ~0b101}[kind]
 
 
 def make(cfg):
@@ -50,6 +51,11 @@ def make(cfg):
 
 def configs(tier, seed):
     out = []
+    for n in (3, 5) if tier == "quick" else (3, 4, 5, 6, 8):
+        for aw, fw in ((1, 1), (2, 2)):
+            out.append(dict(entries=n, aw=aw, fw=fw, init="neg", mode="ind"))
+            if n <= 5:
+                out.append(dict(entries=n, aw=aw, fw=fw, init="neg", mode="bmc", K=5))
     if tier == "quick":
         for n in range(1, 7):
             for aw, fw in ((1, 1), (2, 2), (3, 1), (1, 3)):
